@@ -268,7 +268,9 @@ func TestConfidential(t *testing.T) {
 				res.Violate("leak audit "+strings.Join(hits, ","), fmt.Sprintf("the audit record of %s(%q) contains a secret value: %v", c.Op, c.Name, hits), nil)
 			}
 		}
+		saveFaultsToo = true
 		total += genHistoryNames(sys, r, w, res, nev, true, "db", &maxver, tr == 0, names)
+		saveFaultsToo = false
 		sys.Close()
 	}
 	w.Close()
